@@ -253,7 +253,7 @@ impl WriterThreadPool {
 
         full_append
             .sync_rx
-            .wait_for(|write_offset| *write_offset >= full_append.write_offset)
+            .wait_for(|synced| *synced >= full_append.write_offset)
             .await
             .map_err(|_| WriteError::NoThreadReply)?;
 
@@ -313,6 +313,7 @@ pub struct AppendResult {
 
 struct FullAppendResult {
     append: AppendResult,
+    // Sync position (see `sync_position`) the append ends at, comparable across rollovers
     write_offset: u64,
     sync_rx: watch::Receiver<u64>,
 }
@@ -391,7 +392,11 @@ impl Worker {
                     stream_index,
                 }));
 
-                let (sync_tx, _) = watch::channel(writer.write_offset());
+                let (sync_tx, _) = watch::channel(sync_position(
+                    bucket_segment_id,
+                    segment_size,
+                    writer.write_offset(),
+                ));
                 let writer_set = WriterSet {
                     dir: dir.clone(),
                     reader,
@@ -548,7 +553,11 @@ impl Worker {
 
         let _ = reply_tx.send(res.map(|append| FullAppendResult {
             append,
-            write_offset: writer_set.writer.write_offset(),
+            write_offset: sync_position(
+                writer_set.bucket_segment_id,
+                writer_set.segment_size,
+                writer_set.writer.write_offset(),
+            ),
             sync_rx: writer_set.sync_tx.subscribe(),
         }));
     }
@@ -729,7 +738,11 @@ impl WriterSet {
                 panic!("failed to insert stream index: {err}");
             }
         }
-        self.sync_tx.send_replace(write_offset);
+        self.sync_tx.send_replace(sync_position(
+            self.bucket_segment_id,
+            self.segment_size,
+            write_offset,
+        ));
         #[cfg(feature = "verif")]
         seglog::verif::point(
             "writer:sync:published",
@@ -1245,6 +1258,15 @@ struct PendingIndex {
     stream_id: StreamId,
     stream_version: u64,
     offset: u64,
+}
+
+/// Position published on the sync channel: grows monotonically across rollovers, so a
+/// waiter from an older segment is released by any sync of a newer one, and a waiter in a
+/// new segment is not released by the (numerically larger) offsets of the old segment.
+fn sync_position(bucket_segment_id: BucketSegmentId, segment_size: usize, offset: u64) -> u64 {
+    (bucket_segment_id.segment_id as u64)
+        .saturating_mul(segment_size as u64)
+        .saturating_add(offset)
 }
 
 fn bucket_id_to_thread_id(
